@@ -4,6 +4,7 @@ from ..spec import Acc, Term, Einsum, Spec
 from .mapping import interleave
 
 DIMS = [("Q", "S", "W"), ("P", "R", "H")]
+ALT_DIMS = [("M", "T", "V"), ("X", "Y", "U"), ("Q", "S", "V"), ("P", "S", "W"), ("W", "R", "Q")]
 
 
 def gen_affine(rnd, stratum=None):
@@ -15,9 +16,15 @@ def gen_affine(rnd, stratum=None):
     split without halo (subsampling); S4 multi-level split with halo;
     S5 coefficient 3/5/6 looped over the input rank."""
     if stratum is None:
-        stratum = rnd.choice(["S1", "S1", "S2", "S2", "S3"])
-    dims = 1 if stratum in ("S4", "S5") else rnd.randint(1, 2)
+        stratum = rnd.choice(["S1", "S1", "S2", "S2", "S3", "S6", "S8"])
+    dims = 1 if stratum in ("S4", "S5", "S6", "S7") else rnd.randint(1, 2)
     pairs = DIMS[:dims]
+    if rnd.random() < 0.3:
+        # other rank names for the same index expressions
+        if dims == 1:
+            pairs = [rnd.choice(ALT_DIMS)]
+        else:
+            pairs = [("M", "T", "V"), ("X", "Y", "U")]
     channel = rnd.random() < 0.3
     out_idx, i_idx, f_idx = [], [], []
     ext = {}
@@ -26,7 +33,9 @@ def gen_affine(rnd, stratum=None):
     info = {"stratum": stratum, "dims": [], "tags": [stratum]}
     part_dim = rnd.randrange(dims)
     for di, (q, s, w) in enumerate(pairs):
-        if stratum == "S5":
+        if stratum in ("S6", "S7"):
+            a, b, kind = rnd.choice([1, 1, 2]), rnd.choice([1, 1, 2]), "conv"
+        elif stratum == "S5":
             a, b, kind = rnd.choice([3, 5, 6]), 1, "conv"
         elif stratum == "S3":
             a, b, kind = rnd.choice([1, 2, 4]), 0, "sub"
@@ -54,6 +63,8 @@ def gen_affine(rnd, stratum=None):
             halo = abs(b) * (S - 1)
             if stratum == "S5":
                 ch = "qw"
+            elif stratum == "S6":
+                ch = "qs"
             elif b > 0:
                 ch = rnd.choice(["qs", "qw"])
             else:
@@ -62,6 +73,32 @@ def gen_affine(rnd, stratum=None):
             if ch == "qw":
                 info["tags"].append("loop-input-rank")
         nlev = 0
+        if stratum == "S6":
+            # the filter rank is partitioned (shape or occupancy); the output rank is not
+            k = rnd.choice(["shape", "shape", "occ"])
+            if k == "shape":
+                parts[s] = ["uniform_shape(%d)" % rnd.randint(1, 3)]
+            else:
+                parts[s] = ["uniform_occupancy(F.%d)" % rnd.randint(1, 3)]
+            groups.append([s + "1", s + "0"])
+            groups.append([q])
+            info["tags"].append("filter-partitioned")
+            info["dims"].append({"a": a, "b": b, "kind": kind, "nlev": 0, "halo": halo,
+                                 "q": q, "s": s, "w": w})
+            continue
+        if stratum == "S7":
+            # the INPUT rank is partitioned and the output rank follows it
+            n7 = rnd.choice([1, 1, 2])
+            parts[w] = ["%s(%d)" % (rnd.choice(["uniform_shape", "uniform_shape", "nway_shape"]),
+                                    rnd.randint(2, 5)) for _ in range(n7)]
+            parts[q] = ["follow(%s)" % w]
+            wl = [w + str(j) for j in range(n7, -1, -1)]
+            ql = [q + str(j) for j in range(n7, -1, -1)]
+            groups.append(rnd.choice([wl + [s], wl[:-1] + [q + "0", s], ql + [s]]))
+            info["tags"].append("input-partitioned-output-follows")
+            info["dims"].append({"a": a, "b": b, "kind": kind, "nlev": n7, "halo": halo,
+                                 "q": q, "s": s, "w": w})
+            continue
         want_part = stratum in ("S2", "S3", "S4") and di == part_dim
         if want_part or (stratum in ("S2",) and rnd.random() < 0.3):
             if stratum == "S2":
@@ -116,6 +153,14 @@ def gen_affine(rnd, stratum=None):
     if f_ranks:
         decl["F"] = f_ranks
         factors.append(Acc("F", f_acc_idx))
+    if stratum == "S8" or (stratum in ("S1", "S2", "S3") and rnd.random() < 0.2):
+        # an extra operand indexed by (some of) the output's index variables
+        ov = [ix for ix in out_idx]
+        k = rnd.randint(1, len(ov))
+        sel = sorted(rnd.sample(range(len(ov)), k))
+        decl["B"] = [pairs[i][0] for i in sel]
+        factors.append(Acc("B", [ov[i] for i in sel]))
+        info["tags"].append("extra-output-operand")
     if rnd.random() < 0.5:
         factors.reverse()
     e = Einsum(Acc("O", o_acc_idx), [Term("times", factors)])
